@@ -2942,3 +2942,65 @@ func isParamOf(info *types.Info, fd *ast.FuncDecl, o types.Object) bool {
 	}
 	return false
 }
+
+// ---- C09.R23 a refill that succeeded is a reason to look again, whatever it delivered ----
+
+// Stream.read reports false only when the reader is exhausted or failed; a reader may deliver nothing and no error
+// (a zero-length write into a pipe), and read then reports true with an unchanged window. Every scanner goes round
+// again after a true answer. A condition that also wants the window to have grown (`s.read() && s.cursor < s.length`)
+// takes such an empty read for the end of the input: Decode returns io.EOF and More false with input still to come.
+// Obligation: no condition of the decoder package joins a call of (*Stream).read with a comparison of the cursor and
+// the length by &&.
+func c09r23(rc *core.RC) {
+	p := rc.P
+	n, plain := 0, 0
+	for _, fd := range p.Funcs("decoder") {
+		if fd.Body == nil {
+			continue
+		}
+		info := p.Info(fd)
+		k := 0
+		ast.Inspect(fd.Body, func(m ast.Node) bool {
+			var cond ast.Expr
+			switch x := m.(type) {
+			case *ast.IfStmt:
+				cond = x.Cond
+			case *ast.ForStmt:
+				cond = x.Cond
+			}
+			if cond == nil {
+				return true
+			}
+			cs := conjuncts(cond)
+			hasRead, hasCmp := false, false
+			for _, c := range cs {
+				inner, _ := stripNot(c)
+				if call, ok := core.Unparen(inner).(*ast.CallExpr); ok && strings.HasSuffix(core.CalleeName(info, call), "Stream.read") {
+					hasRead = true
+				}
+				if be, ok := core.Unparen(c).(*ast.BinaryExpr); ok {
+					l, r := core.FieldOf(info, be.X), core.FieldOf(info, be.Y)
+					if l != nil && r != nil && ((l.Name() == "cursor" && r.Name() == "length") || (l.Name() == "length" && r.Name() == "cursor")) {
+						hasCmp = true
+					}
+				}
+			}
+			if !hasRead {
+				return true
+			}
+			plain++
+			if len(cs) > 1 && hasCmp {
+				n++
+				k++
+				rc.Touch(p.FuncName(fd))
+				rc.Bad(fmt.Sprintf("%s/refill#%d also-wants-the-window-to-have-grown", p.FuncName(fd), k), cond.Pos(), "the condition %s takes a refill that succeeded and delivered nothing (a reader may return 0, nil) for the end of the input: Decode answers io.EOF and More false while input is still to come, where Unmarshal accepts the same bytes", core.Src(p.Fset, cond))
+			}
+			return true
+		})
+	}
+	if plain < 20 {
+		rc.Unknown("decoder/refill-conditions", token.NoPos, "found %d conditions that call (*Stream).read, fewer than the 20 confirmed by hand", plain)
+	} else if n == 0 {
+		rc.OK("decoder/refill-conditions-look-at-the-answer-only", token.NoPos, "%d conditions call (*Stream).read; none also compares the cursor with the length", plain)
+	}
+}
